@@ -793,6 +793,91 @@ fn extract_next_batch<'a>(
     Some(blocks.drain(..block_count))
 }
 
+/// Verification hooks (runtime-monitoring harness only): thin wrappers over the private items.
+#[cfg(feature = "verif")]
+pub mod verif_export {
+    use super::*;
+
+    /// The real [`Bitswap`] protocol object, driven message by message.
+    pub struct VBitswap(Bitswap);
+
+    impl VBitswap {
+        /// Create the real protocol object on top of a real `TransportService`.
+        pub fn new(service: TransportService, config: Config) -> Self {
+            VBitswap(Bitswap::new(service, config))
+        }
+
+        /// Feed one inbound message to the real `on_message_received()`.
+        pub async fn on_message_received(
+            &mut self,
+            peer: PeerId,
+            message: bytes::BytesMut,
+        ) -> Result<(), Error> {
+            self.0.on_message_received(peer, message).await
+        }
+    }
+
+    /// The real `block_to_response()`.
+    pub fn block_to_response(peer: &PeerId, prefix: Vec<u8>, data: Vec<u8>) -> Option<ResponseType> {
+        super::block_to_response(peer, schema::bitswap::Block { prefix, data })
+    }
+
+    /// The real `send_response()`.
+    pub async fn send_response(
+        substream: &mut Substream,
+        entries: Vec<ResponseType>,
+    ) -> Result<(), Error> {
+        super::send_response(substream, entries).await
+    }
+
+    /// The real `send_request()`.
+    pub async fn send_request(
+        substream: &mut Substream,
+        cids: Vec<(Cid, WantType)>,
+    ) -> Result<(), Error> {
+        super::send_request(substream, cids).await
+    }
+
+    /// The real `Prefix::from_bytes()`: `(version, codec, multihash type, multihash length)`.
+    pub fn prefix_from_bytes(bytes: &[u8]) -> Option<(u64, u64, u64, u8)> {
+        Prefix::from_bytes(bytes)
+            .map(|p| (p.version.into(), p.codec, p.multihash_type, p.multihash_len))
+    }
+
+    /// The real `Prefix::to_bytes()` for the prefix of `cid`.
+    pub fn prefix_of(cid: &Cid) -> Vec<u8> {
+        Prefix {
+            version: cid.version(),
+            codec: cid.codec(),
+            multihash_type: cid.hash().code(),
+            multihash_len: cid.hash().size(),
+        }
+        .to_bytes()
+    }
+
+    /// The real `blocks_message()`.
+    pub fn blocks_message(blocks: Vec<(Cid, Vec<u8>)>) -> Option<(Bytes, usize)> {
+        super::blocks_message(blocks)
+    }
+
+    /// The real `presences_message()`.
+    pub fn presences_message(presences: Vec<(Cid, BlockPresenceType)>) -> Option<(Bytes, usize)> {
+        super::presences_message(presences)
+    }
+
+    /// The real `extract_next_batch()`, returning the drained batch.
+    pub fn extract_next_batch(
+        blocks: &mut VecDeque<(Cid, Vec<u8>)>,
+        max_batch_size: usize,
+    ) -> Option<Vec<(Cid, Vec<u8>)>> {
+        super::extract_next_batch(blocks, max_batch_size).map(|drain| drain.collect())
+    }
+
+    /// Limits.
+    pub const MAX_MESSAGE_SIZE: usize = config::MAX_MESSAGE_SIZE;
+    pub const MAX_BATCH_SIZE: usize = config::MAX_BATCH_SIZE;
+}
+
 #[cfg(test)]
 mod tests {
     use cid::multihash::Multihash;
